@@ -15,7 +15,6 @@ Contract monitored (executable form of the property statement, nothing taken fro
 * cycles:    a workbook whose dependency graph (Ref's, static) has a cycle is rejected with E2PyclParserException by the
              whole-file translation and by every entry cell that reaches the cycle; acyclic look-alikes are accepted.
 """
-import itertools
 import multiprocessing
 import os
 import random
@@ -1138,8 +1137,7 @@ class Gen:
                 if type(v) is int and v > 0:
                     firsts.append((v, row[0]))
             if firsts and rng.random() < 0.85:
-                v, cell = rng.choice(firsts)
-                key = ['num', v] if rng.random() < 0.6 or cell in later else ['num', v]
+                key = ['num', rng.choice(firsts)[0]]
             else:
                 key = ['num', 1]
             return ['vlookup', key, R, rng.randint(1, R[4] - R[2] + 1)]
